@@ -17,8 +17,27 @@
 (* Stride/Phase thin the triples deterministically (quick tier);            *)
 (* AllCombos = FALSE rotates one combo per triple instead of all.           *)
 EXTENDS Convert
-CONSTANTS Stride, Phase, AllCombos, WithBase, CfgAll
+CONSTANTS Stride, Phase, AllCombos, WithBase, CfgAll, Cross
 VARIABLE c
+
+(* Cross = TRUE (instance `cross`): the unit objects of a case need not be bound to the quantity's table.  A (the   *)
+(* unit of the data) is; B and C may be twin units (Pool[i].reg = 2: same spelling, read in a second table where it  *)
+(* may carry another value), at least one of them is.  Two more case dimensions, both generated here:               *)
+(*   bind  how the replay comes by such a unit object: "twin" - bound to a second registry; "stale" - bound to the  *)
+(*         quantity's own registry but made before that registry was re-calibrated to its present values (not for   *)
+(*         prefixed spellings: what a prefixed spelling means after an edit of its symbol is C12's subject)          *)
+(*   warm  a history: conversion requests (legs x -> y over {a, b, c}) made in the same registries BEFORE the       *)
+(*         observed routes.  The registries of such a case are made afresh for the case, so `warm` (and the order   *)
+(*         of the routes after it) is the whole history.  The laws do not mention history: P is unchanged, every    *)
+(*         observed route is judged as in any other case.                                                            *)
+Legs == <<"aa", "ab", "ac", "ba", "bb", "bc", "ca", "cb", "cc">>
+Hists == <<<<>>>> \o [h \in 1..Len(Legs) |-> <<Legs[h]>>]
+         \o <<<<"ab", "ba">>, <<"ba", "ab">>, <<"ac", "ab">>, <<"bc", "ac">>, <<"bb", "aa">>, <<"cc", "ab">>>>
+NHist == Len(Hists)
+Binds == <<"twin", "stale">>
+Foreign(i) == Pool[i].reg = 2
+\* "stale" unit objects are made before the registry is edited: not for prefixed spellings
+BindOk(b, cc, bd) == bd = "twin" \/ (~(Foreign(b) /\ Prefixed(PoolU[b])) /\ ~(Foreign(cc) /\ Prefixed(PoolU[cc])))
 
 FloatGrid == <<<<-2, 1>>, <<1, 2>>, <<7, 1>>>>
 IntGrid == <<<<-2, 1>>, <<3, 1>>, <<7, 1>>>>
@@ -51,17 +70,19 @@ VecsJ(vs) == [j \in DOMAIN vs |-> VecJ(vs[j])]
 NSys == Len(Systems)
 CfgName(r) == IF r = 0 THEN "" ELSE Systems[r].name
 
-ConvCase(a, b, cc, k) ==
+ConvCaseH(a, b, cc, k, warm, bind) ==
   LET A == PoolU[a] B == PoolU[b] C == PoolU[cc] cb == Combos[k]
       ev == CaseEval("conv", A, B, C, 1, 0, cb.dt, cb.xs)
       r == (a + 2 * b + cc) % (NSys + 1)
       ex == ev.exact cd == ev.cd x == InVec(cb.dt, cb.xs) IN
   [kind |-> "conv", a |-> a, b |-> b, c |-> cc, k |-> k, A |-> Pool[a], B |-> Pool[b], C |-> Pool[cc],
    dt |-> cb.dt, sh |-> cb.sh, xs |-> cb.xs, exact |-> ex, gen |-> Gen(A), sys |-> "", sysi |-> 1,
-   cfgi |-> r, cfg |-> CfgName(r), dfam |-> "", dbfam |-> "", dg |-> "",
+   cfgi |-> r, cfg |-> CfgName(r), dfam |-> "", dbfam |-> "", dg |-> "", warm |-> warm, bind |-> bind,
    cand |-> [A |-> VecsJ(cd.A), B |-> VecsJ(cd.B), C |-> VecsJ(cd.C)],
    model |-> IF ex THEN [id |-> M_Id(ev, x), inv |-> M_Inv(ev, x), comp |-> M_Comp(ev), routes |-> M_Routes(A, B)]
              ELSE [id |-> TRUE, inv |-> TRUE, comp |-> TRUE, routes |-> TRUE]]
+
+ConvCase(a, b, cc, k) == ConvCaseH(a, b, cc, k, <<>>, "")
 
 BaseCase(a, s, r, k) ==
   LET A == PoolU[a] cb == Combos[k]
@@ -71,7 +92,7 @@ BaseCase(a, s, r, k) ==
   [kind |-> "base", a |-> a, b |-> a, c |-> a, k |-> k, A |-> Pool[a], B |-> Pool[a], C |-> Pool[a],
    dt |-> cb.dt, sh |-> cb.sh, xs |-> cb.xs, exact |-> ex, gen |-> Gen(A), sys |-> Systems[s].name, sysi |-> s,
    cfgi |-> r, cfg |-> CfgName(r), dfam |-> IF same THEN "base" ELSE "based", dbfam |-> IF same THEN "bback" ELSE "dback",
-   dg |-> IF same THEN "B" ELSE "C",
+   dg |-> IF same THEN "B" ELSE "C", warm |-> <<>>, bind |-> "",
    cand |-> [A |-> VecsJ(cd.A), B |-> VecsJ(cd.B), C |-> VecsJ(cd.C)],
    model |-> [id |-> TRUE, inv |-> IF ex THEN cd.A[2] = cd.A[1] ELSE TRUE, comp |-> TRUE, routes |-> TRUE]]
 
@@ -80,12 +101,23 @@ BaseCase(a, s, r, k) ==
 KeepCfg(a, s, r) == CfgAll \/ r = s \/ r = ((a + s) % (NSys + 1))
 KeepTriple(a, b, cc) == ((a * 7 + b * 3 + cc) % Stride) = Phase
 KeepCombo(a, b, cc, k) == AllCombos \/ k = ((a + b + cc) % NCombos) + 1
+\* one history and one binding form per triple, both rotating (every history meets every class of triple)
+KeepHist(a, b, cc, h) == h = ((a + 3 * b + 5 * cc) % NHist) + 1
+KeepBind(a, b, cc, h, n) == n = ((a + b + cc + h) % 2) + 1 \/ ~BindOk(b, cc, Binds[((a + b + cc + h) % 2) + 1])
 
 Init == c = <<>>
 Next == /\ c = <<>>
-        /\ \/ \E a \in 1..NPool : \E b \in CompatOf[a] : \E cc \in (CompatOf[a] \cap CompatOf[b]) : \E k \in 1..NCombos :
+        /\ \/ /\ ~Cross
+              /\ \E a \in 1..NPool : \E b \in CompatOf[a] : \E cc \in (CompatOf[a] \cap CompatOf[b]) : \E k \in 1..NCombos :
                 /\ a \in CompatOf[b] /\ KeepTriple(a, b, cc) /\ KeepCombo(a, b, cc, k)
                 /\ c' = ConvCase(a, b, cc, k)
+           \/ /\ Cross
+              /\ \E a \in 1..NPool : \E b \in CompatOf[a] : \E cc \in (CompatOf[a] \cap CompatOf[b]) : \E k \in 1..NCombos :
+                 \E h \in 1..NHist : \E n \in 1..2 :
+                /\ a \in CompatOf[b] /\ ~Foreign(a) /\ (Foreign(b) \/ Foreign(cc))
+                /\ KeepTriple(a, b, cc) /\ KeepCombo(a, b, cc + h, k) /\ KeepHist(a, b, cc, h)
+                /\ BindOk(b, cc, Binds[n]) /\ KeepBind(a, b, cc, h, n)
+                /\ c' = ConvCaseH(a, b, cc, k, Hists[h], Binds[n])
            \/ /\ WithBase
               /\ \E a \in 1..NPool : \E s \in DOMAIN Systems : \E r \in 0..NSys : \E k \in 1..NCombos :
                 /\ PoolU[a].ok /\ KeepCfg(a, s, r) /\ KeepCombo(a, s, r, k)
